@@ -38,7 +38,9 @@ func probeDead(cn *wire.Conn, args ...string) (alive bool, what string) {
 }
 
 func c20Termination(r *verdict.Run, race bool) {
-	scenarios := []string{"idle", "half-command", "pipeline-in-flight", "in-multi", "blocked-forever", "blocked-10s", "many-connections", "mixture", "no-clients", "close-api", "reqterm-then-wait"}
+	scenarios := []string{"idle", "half-command", "pipeline-in-flight", "in-multi", "blocked-forever", "blocked-10s", "many-connections", "mixture", "no-clients", "close-api", "reqterm-then-wait",
+		// clients of every kind that went away before the termination (orderly close, reset, half-close), alone or next to live ones
+		"departed-close", "departed-rst", "departed-half-close", "departed-and-live", "departed-blocked-rst"}
 	parallel(len(scenarios), 6, func(i int) {
 		sc := scenarios[i]
 		c, err := startChild(race)
@@ -112,6 +114,15 @@ func c20Termination(r *verdict.Run, race bool) {
 				mk(k)
 				mk(k)
 			}
+		case "departed-close", "departed-rst", "departed-half-close", "departed-and-live":
+			for _, k := range []string{"idle", "half-command", "pipeline-in-flight", "in-multi", "blocked-forever", "blocked-10s"} {
+				mk(k)
+				mk(k)
+			}
+		case "departed-blocked-rst":
+			for j := 0; j < 4; j++ {
+				mk("blocked-forever")
+			}
 		case "no-clients", "close-api", "reqterm-then-wait":
 			mk("idle")
 		default:
@@ -120,6 +131,31 @@ func c20Termination(r *verdict.Run, race bool) {
 			}
 		}
 		time.Sleep(50 * time.Millisecond) // let blocking commands block, pipelines start
+		if strings.HasPrefix(sc, "departed-") {
+			var live []*lifeClient
+			for j, lc := range clients {
+				switch {
+				case sc == "departed-close":
+					lc.cn.Close()
+				case sc == "departed-rst", sc == "departed-blocked-rst":
+					lc.cn.CloseRST()
+				case sc == "departed-half-close":
+					lc.cn.CloseWrite()
+					live = append(live, lc) // still readable: probed like the others
+				case j%2 == 0:
+					lc.cn.CloseRST()
+				default:
+					live = append(live, lc)
+				}
+			}
+			departed := len(clients) - len(live)
+			if sc == "departed-half-close" {
+				departed = len(clients)
+			}
+			clients = live
+			log = append(log, fmt.Sprintf("%d clients went away (%s) before the termination", departed, sc))
+			time.Sleep(100 * time.Millisecond) // the emulator notices (or not) before it is closed
+		}
 		log = append(log, fmt.Sprintf("%d clients of kinds for scenario %s", len(clients), sc))
 		// terminate
 		t0 := time.Now()
@@ -395,7 +431,7 @@ func c20MultiInstance(r *verdict.Run, race bool) {
 var _ sync.Mutex
 
 func checkC20(r *verdict.Run) {
-	r.Rule = "scenarios run inside child processes through the emulator's Go API (RequestTermination / WaitForTermination / Close), observed through sockets: (1) termination with 11 client populations (idle, half a command sent, pipeline in flight, inside MULTI, blocked with timeout 0 and 10 s, 200 connections, mixtures): Close must return within 6 s and afterwards every pre-existing connection must get EOF/reset on its next request (never a normal reply, never a write), new connections are refused; " +
+	r.Rule = "scenarios run inside child processes through the emulator's Go API (RequestTermination / WaitForTermination / Close), observed through sockets: (1) termination with 16 client populations (idle, half a command sent, pipeline in flight, inside MULTI, blocked with timeout 0 and 10 s, 200 connections, mixtures, and the same kinds after the clients went away by close / reset / half-close before the termination, alone or next to live clients): Close must return within 6 s and afterwards every pre-existing connection must get EOF/reset on its next request (never a normal reply, never a write), new connections are refused; " +
 		"(2) port/state reuse: Close then a new emulator on the same port in the same process, repeatedly, with predecessor connections still open and writing: it must bind and be empty in all 16 databases; (3) two emulators in one process: data, CLIENT LIST, CLIENT KILL, CLIENT UNBLOCK must not cross instances, closing one leaves the other serving. distinct = scenarios and cycles"
 	c20Termination(r, false)
 	c20PortReuse(r, tierPick(r, 50, 1000))
